@@ -13,11 +13,11 @@ RULE = ('cases = base points x (TT tensors and TT matrices) of order 2..5 with M
         'ranks), rank profiles drawn over all achievable ones for small sizes, tensors z,w of arbitrary ranks. Independent reference: the harness builds the tangent space of the '
         'fixed-rank manifold at x densely (Jacobian of cores -> dense tensor by autograd, orthonormal basis Q by SVD, dimension checked against sum r_{k-1} n_k r_k - sum r_k^2) and '
         'requires D(P(z)) = Q Q^T vec(z). Algebraic monitors on dense values in addition: linearity, idempotence, self-adjointness, fixed point P(x)=x, residual orthogonality, '
-        'ranks(Pz) <= 2 ranks(x). riemannian_gradient(x,f) for f in {1/2||t-a||^2, <c,t>, (||t||^2)^2} must equal Q Q^T (dense Euclidean gradient by autograd). Tolerance 1e-9 relative. '
+        'ranks(Pz) <= 2 ranks(x). riemannian_gradient(x,f) for f in {1/2||t-a||^2, <c,t>, (||t||^2)^2} must equal Q Q^T (dense Euclidean gradient by autograd). Tolerance 1e-9 relative (1e3*u/delta for the ill-conditioned base points: two interface vectors of one core a distance delta in {1e-4,1e-5,3e-6} apart, modes up to 24). '
         'distinct = (kind, structure, rank profile, f); non-trivial = tangent space of dimension >= 2 and z not in it.')
 ASSUMPTIONS = ['real float64', 'base points of non-minimal rank are rejected by the generator (the manifold is not smooth there)']
 REQUIRED_REACH = ['manifold:riemannian_projection', 'manifold:riemannian_gradient', 'manifold:_delta2cores']
-REQUIRED_COUNTS = {'kind:tensor': 1, 'kind:operator': 1, 'projection_vs_dense_projector': 50, 'gradient_vs_dense_projector': 30, 'axiom_checks': 200, 'moved_base_point_histories': 30, 'repeated_gradient_calls_at_one_object': 30}
+REQUIRED_COUNTS = {'kind:tensor': 1, 'kind:operator': 1, 'projection_vs_dense_projector': 50, 'gradient_vs_dense_projector': 30, 'axiom_checks': 200, 'base-point:ill-conditioned': 10, 'moved_base_point_histories': 30, 'repeated_gradient_calls_at_one_object': 30}
 LINE_FUNCS = ['riemannian_projection', 'riemannian_gradient', '_delta2cores']
 
 
@@ -45,6 +45,23 @@ def cases(tier, seed):
             for k in range(1, d):
                 R[k] = min(R[k], R[k - 1] * modes[k - 1], modes[k] * R[k + 1])
         cs.append({'gen': 'proj', 'N': N, 'M': M, 'R': R, 'f': ['quad', 'lin', 'quartic'][i % 3], 'Rz': gens.rank_profile(rng, d, 'rand', 4), 'Rw': gens.rank_profile(rng, d, 'rand', 3)})
+    # ill-conditioned (still minimal-rank) base points: two interface vectors of one core a distance delta apart, larger modes so that tall unfoldings occur.
+    # A-priori tolerance for this class: 1e3*u/delta (the tangent space itself moves by about u/delta when x is perturbed by roundoff).
+    for i in range(120 if tier == 'quick' else 1500):
+        d = rng.choice([2, 2, 3])
+        ttm = i % 4 == 3
+        while True:
+            N = [rng.choice((2, 3, 4, 6, 8, 12, 16, 24)) for _ in range(d)]
+            M = [rng.choice((1, 2)) for _ in range(d)] if ttm else None
+            modes = [a * b for a, b in zip(M, N)] if ttm else N
+            if dn.prod(modes) <= 600:
+                break
+        R = [1] + [min(rng.randint(2, 3), dn.prod(modes[:k]), dn.prod(modes[k:])) for k in range(1, d)] + [1]
+        for _ in range(3):
+            for k in range(1, d):
+                R[k] = min(R[k], R[k - 1] * modes[k - 1], modes[k] * R[k + 1])
+        cs.append({'gen': 'proj', 'N': N, 'M': M, 'R': R, 'f': ['quad', 'lin', 'quartic'][i % 3], 'Rz': gens.rank_profile(rng, d, 'rand', 4), 'Rw': gens.rank_profile(rng, d, 'rand', 3),
+                   'ill': [1e-4, 1e-5, 3e-6][i % 3], 'ill_bond': rng.randint(1, d - 1), 'ill_side': i % 2})
     return cs
 
 
@@ -64,7 +81,20 @@ def run_case(case, ctx):
     modes = [a * b for a, b in zip(M, N)] if ttm else N
     # memory layout of the base point: contiguous cores, cores that are permuted views (rank and mode dims not mergeable), or (operators) the result of t()
     layout = ['contiguous', 'permuted-views', 'via-t()', 'via-TT-SVD', 'via-round'][case['seed'] % 5]
-    if layout == 'permuted-views':
+    tol = TOL
+    if case.get('ill'):
+        layout = 'ill-conditioned'
+        delta, kb = case['ill'], case['ill_bond']
+        tol = 1e3 * dn.ueps(dt) / delta
+        cs = gens.make_cores(N, R, dt, 'gauss', g, M=M)
+        if R[kb] >= 2:
+            if case['ill_side'] == 0:       # the core left of the bond: two of its outgoing interface vectors nearly parallel
+                cs[kb - 1][..., 1] = cs[kb - 1][..., 0] + delta * cs[kb - 1][..., 1]
+            else:                           # the core right of the bond: two of its incoming interface vectors nearly parallel
+                cs[kb][1] = cs[kb][0] + delta * cs[kb][1]
+            ctx.count('base-point:ill-conditioned')
+        x = torchtt.TT(cs)
+    elif layout == 'permuted-views':
         cs = gens.make_cores(N, R, dt, 'gauss', g, M=M)
         cs = [c.permute(*reversed(range(c.dim()))).contiguous().permute(*reversed(range(c.dim()))) for c in cs]     # same values, reversed strides
         x = torchtt.TT(cs)
@@ -149,7 +179,7 @@ def run_case(case, ctx):
         err = dn.fro(a - b) if torch.is_tensor(a) else abs(a - b)
         ctx.count('axiom_checks')
         ctx.metric('rel_err/' + clause, err / max(scale, 1e-300))
-        if not err <= TOL * scale:
+        if not err <= tol * scale:
             ctx.viol(key + '/projection/clause=' + clause, '%s: %s: error %.3e, scale %.3e' % (what, detail, err, scale))
             return False
         return True
@@ -201,7 +231,7 @@ def run_case(case, ctx):
     ne = dn.fro(egrad)
     err = dn.fro(dn.D(gr) - Pd(egrad))
     ctx.metric('rel_err/gradient', err / max(ne, 1e-300))
-    if not err <= TOL * max(ne, 1e-300) * 10:
+    if not err <= tol * max(ne, 1e-300) * 10:
         ctx.viol(gkey + '/clause=differs-from-projected-euclidean-gradient', '%s: ||grad - QQ^T egrad|| = %.3e, ||egrad|| = %.3e' % (what, err, ne))
     if rk >= 2 and dn.fro(dz - dPz) > 1e-6 * nz:
         ctx.nontrivial((kind, tuple(N), tuple(M or ()), tuple(R), fkind))
@@ -217,7 +247,7 @@ def run_case(case, ctx):
             ctx.count('repeated_gradient_calls_at_one_object')
             nn_ = max(dn.fro(eg), 1e-300)
             e_ = dn.fro(dn.D(grn) - Pd(eg))
-            if not e_ <= 10 * TOL * nn_:
+            if not e_ <= 10 * tol * nn_:
                 ctx.viol(key + '/gradient/clause=depends-on-earlier-calls(%s)' % fname.split('/')[0], '%s: %s: ||grad - QQ^T egrad|| = %.3e, ||egrad|| = %.3e' % (what, fname, e_, nn_))
     # ---- history: the base point moves IN PLACE (documented set_core, same core sizes); projection and gradient must follow the point, not the object -----------
     if case['seed'] % 2 == 0:
@@ -256,5 +286,5 @@ def run_case(case, ctx):
             (eg2,) = torch.autograd.grad(fd(Tl2), Tl2)
             ref2 = (Q2 @ (Q2.T @ eg2.reshape(-1))).reshape(eg2.shape)
             ne2 = max(dn.fro(eg2), 1e-300)
-            if not dn.fro(dn.D(gr2) - ref2) <= 10 * TOL * ne2:
+            if not dn.fro(dn.D(gr2) - ref2) <= 10 * tol * ne2:
                 ctx.viol(gkey + '/clause=stale-base-point(after %s)' % how, '%s: gradient at the moved point differs from the projected Euclidean gradient: %.3e (||egrad||=%.3e)' % (what, dn.fro(dn.D(gr2) - ref2), ne2))
